@@ -182,6 +182,13 @@ func TestC10(t *testing.T) {
 						}
 					case 2:
 						cli.Batch(ctx, []jrpc2.Spec{{Method: "q"}, {Method: "m"}, {Method: c10Methods[k%len(c10Methods)], Notify: true}, {Method: c10Methods[(k+1)%len(c10Methods)]}})
+						// an empty batch is not a message: it must be refused, and nothing sent
+						if _, err := cli.Batch(ctx, []jrpc2.Spec{}); err == nil {
+							cch.st.problem("an empty batch was accepted by Batch")
+						}
+						if _, err := cli.Batch(ctx, nil); err == nil {
+							cch.st.problem("a nil batch was accepted by Batch")
+						}
 					}
 					cancel()
 				}
